@@ -165,6 +165,7 @@ AddVals(oa, ob) ==
   IF ~oa.some /\ ~ob.some THEN RNone ELSE IF ~oa.some THEN R(ob.v) ELSE IF ~ob.some THEN R(oa.v) ELSE
   LET a == oa.v  b == ob.v IN
   CASE a.k = "null" -> R(b)
+    [] b.k = "null" -> R(a)                            \* null adds nothing, on the right as on the left
     [] a.k = "map" -> IF b.k # "map" THEN RErr ELSE IF UniqueKeys(a) /\ UniqueKeys(b) THEN R(AddMaps(a, b)) ELSE RUnspec
     [] a.k = "seq" -> CASE b.k = "null" -> R(a) [] b.k = "seq" -> R(SeqV(a.e \o b.e)) [] OTHER -> R(SeqV(Append(a.e, b)))
     [] OTHER ->
@@ -192,7 +193,7 @@ HasMapInside(v) == CASE v.k = "map" -> TRUE [] v.k = "seq" -> \E i \in DOMAIN v.
 
 SubVals(oa, ob) ==
   LET a == oa.v  b == ob.v IN
-  CASE a.k = "null" -> R(b)
+  CASE a.k = "null" -> IF b.k = "null" THEN R(a) ELSE RErr            \* nothing can be taken away from null
     [] a.k = "map" -> RErr
     [] a.k = "seq" -> IF b.k # "seq" THEN RErr
                       ELSE R(SeqV(SelectSeq(a.e, LAMBDA x : ~\E j \in DOMAIN b.e : DeepEq(x, b.e[j]))))
